@@ -366,6 +366,81 @@ def compare_texts(ctx, texts, stream):
                                 signature="C03:%s:%s-vs-%s" % (stream, r[0], mrec[0]))
 
 
+def _code_stream(ctx, singles):
+    """the real ZConfigParser.handle_key_value / handle_directive vs the GENERATED code of their pure prefixes (translation of
+    the statements before the first one that touches the context / the section / self.replace; harness/zcv/pytrans.py, run by
+    zcdrv2).  The real methods run on a parser whose replace() and handle_define/import/include only record what they are
+    handed, and a section object that records addValue: that is exactly the state at which the prefix ends."""
+    import ZConfig
+    from ZConfig.cfgparser import ZConfigParser
+    if not core.ensure_driver2(ctx.tie):
+        ctx.notes.append("zcdrv2 (generated code) could not be built: the code-translation tie is broken; other streams unaffected")
+        ctx.cov["generated_code_stream"] = "driver unavailable"
+        return
+
+    class P(ZConfigParser):
+        __slots__ = ("got",)
+
+        def __init__(self):
+            self.url, self.lineno, self.defines, self.got = "u", 7, {}, None
+
+        def replace(self, text):
+            return text
+
+        def handle_define(self, section, rest):
+            self.got = ("define", rest)
+
+        def handle_import(self, section, rest):
+            self.got = ("import", rest)
+
+        def handle_include(self, section, rest):
+            self.got = ("include", rest)
+
+    class Sec:
+        got = None
+
+        def addValue(self, key, value, pos):
+            self.got = (key, value)
+
+    def err(e):
+        return ["err", ["cfgsyntax", e.url, str(e.lineno), "none" if e.colno is None else str(e.colno), "none"]]
+    lines = list(dict.fromkeys([l.strip() for l in singles] + [l.strip()[1:] for l in singles if l.strip().startswith("%")]))
+    n = 0
+    ans = core.driver_batch([[Atom("code"), "handle-key-value", l] for l in lines], exe=core.DRIVER2)
+    for l, a in zip(lines, ans):
+        p, sec = P(), Sec()
+        try:
+            p.handle_key_value(sec, l)
+            r = ["ok", sec.got]
+        except ZConfig.ConfigurationSyntaxError as e:
+            r = err(e)
+        except Exception as e:
+            r = ["exc", type(e).__name__]
+        n += 1
+        if r[0] == "ok":
+            # the method goes on with `if not value: value = ''`
+            ok = a[0] == "ok" and a[1][1] != "none" and a[1][1][1] == r[1][0] and ("" if a[1][2] == "none" else a[1][2][1]) == r[1][1]
+        else:
+            ok = [a[0], a[1]] == r
+        if not ok:
+            ctx.disagree("generated-code:handle_key_value", l, r, a)
+    ans = core.driver_batch([[Atom("code"), "handle-directive", l] for l in lines], exe=core.DRIVER2)
+    for l, a in zip(lines, ans):
+        p = P()
+        try:
+            p.handle_directive(None, l)
+            r = ["ok", ["tup", ["s", p.got[0]], ["s", p.got[1]]]]
+        except ZConfig.ConfigurationSyntaxError as e:
+            r = err(e)
+        except Exception as e:
+            r = ["exc", type(e).__name__]
+        n += 1
+        if [a[0], a[1]] != r:
+            ctx.disagree("generated-code:handle_directive", l, r, a)
+    ctx.evaluations += n
+    ctx.cov["generated_code_stream"] = {"functions": ["handle_key_value (prefix)", "handle_directive (prefix)"], "evaluations": n}
+
+
 def run(ctx):
     from ZConfig import schemaless
     import ZConfig
@@ -381,6 +456,7 @@ def run(ctx):
                    {n for n in dir(ZConfigParser) if not n.startswith("__")} | {"key_value", "directive", "Define", "INCLUDE", "defines"})
     for w in words:
         singles += ["%" + w + " k v", "%" + w + " define n v", "%" + w]
+    _code_stream(ctx, singles)
     if ctx.driver_ok:
         ans = core.driver_batch([[Atom("classify"), l] for l in singles])
         recs = core.driver_batch([[Atom("parse-rec"), None, [l]] for l in singles])
